@@ -1,4 +1,5 @@
 import AtsimModel.Model.WriteTrace
+import AtsimModel.Gen.Logic
 /-!
 # C17 — a failed tabulation never leaves a partial table behind
 
@@ -63,5 +64,198 @@ theorem C17_adp_three_writes (n1 n2 n3 k : Nat) (hk : n1 < k) (hk2 : k ≤ n1 + 
 
 /-- non-vacuity -/
 example : writesBeforeFailure (traceBuffered 6) 4 = 0 := by decide
+
+/-! ## The code itself: how many `write` calls reach the destination
+
+For every whole-file writer the translator emits a second definition, `<writer>_writes` (`translator/py2lean_logic.py`, destination mode): the same Python function,
+statement for statement, in which the output parameter is the DESTINATION - the list of chunks it has received, one per `write` / `print(file=)` call that reaches it
+(local `StringIO` builders stay ordinary streams) - and whose value is what the destination holds when control leaves the function, normally or through one of the
+function's own `raise` statements.  The theorems below hold for EVERY input: the destination receives exactly ONE chunk, and that chunk is the complete table the
+ordinary translation of the same function produces (the functions `Cxx_code_*` of C01-C05/C19 are about); when the function raises (a DL_POLY grid that is not a
+multiple of four, a missing Finnis-Sinclair density) it has received nothing.  Every evaluation of a model function whose value appears in the table is an argument of
+a token of that single chunk, so it happened before the only `write`: the event sequence is `traceBuffered n` (`C17_code_trace`), which `C17_buffered` is about. -/
+namespace CodeTie
+open Atsim.Gen.Logic
+
+/-- evaluations of model callables recorded in an opaque argument -/
+def ovEvals : OV → Nat
+  | .fn _ _ _ => 1
+  | .repr v => ovEvals v
+  | .scaled _ v => ovEvals v
+  | _ => 0
+
+/-- evaluations whose results a chunk of text holds -/
+def chunkEvals (c : List Tok) : Nat := (c.map fun t => (t.args.map ovEvals).sum).sum
+
+/-- the event sequence of a destination history: for each chunk, the evaluations that produced it, then the write -/
+def evsOf (d : List (List Tok)) : List Ev := d.flatMap fun c => List.replicate (chunkEvals c) Ev.ev ++ [Ev.wr]
+
+end CodeTie
+
+open Atsim.Gen.Logic CodeTie in
+/-- a destination that received exactly one chunk has the buffered trace -/
+theorem C17_code_trace (c : List Tok) : evsOf [c] = traceBuffered (chunkEvals c) := by
+  simp [evsOf, traceBuffered, List.flatMap_cons, List.flatMap_nil]
+
+open Atsim.Gen.Logic in
+theorem lammps_writes_loop1_eq (n : Int) (maxr minr : Rat) (d : List (List Tok)) (pots : List PotRec) (pl : List (List Tok)) (xs : List PotRec) :
+    lammps_write_potentials_writes_loop1 n maxr minr d pots pl xs = d ++ [lammps_write_potentials_loop1 n maxr minr [] pots pl xs] := by
+  induction xs generalizing pl with
+  | nil => simp [lammps_write_potentials_writes_loop1, lammps_write_potentials_loop1]
+  | cons x rest ih =>
+    simp only [lammps_write_potentials_writes_loop1, lammps_write_potentials_loop1]
+    exact ih _
+
+open Atsim.Gen.Logic in
+/-- **code tie (LAMMPS)**: `writePotentials` hands the destination one chunk: the whole table -/
+theorem C17_code_lammps (pots : List PotRec) (minr maxr : Rat) (n : Int) (d : List (List Tok)) :
+    lammps_write_potentials_writes pots minr maxr n d = d ++ [lammps_write_potentials pots minr maxr n []] := by
+  simp only [lammps_write_potentials_writes, lammps_write_potentials]
+  exact lammps_writes_loop1_eq _ _ _ _ _ _ _
+
+open Atsim.Gen.Logic in
+theorem dlpoly_writes_loop1_eq (cutoff : Rat) (n : Int) (mesh : Rat) (d : List (List Tok)) (ob : List Tok) (pots : List PotRec) (xs : List PotRec) :
+    dlpoly_write_potentials_writes_loop1 cutoff n mesh d ob pots xs =
+      match dlpoly_write_potentials_loop1 cutoff n mesh [] ob pots xs with
+      | .ok s => d ++ [s]
+      | .error _ => d := by
+  induction xs generalizing ob with
+  | nil => simp [dlpoly_write_potentials_writes_loop1, dlpoly_write_potentials_loop1]
+  | cons x rest ih =>
+    simp only [dlpoly_write_potentials_writes_loop1, dlpoly_write_potentials_loop1]
+    cases h : dlpoly_write_potential x cutoff n mesh ob with
+    | error e => simp [andThen]
+    | ok v => simp only [andThen]; exact ih _
+
+open Atsim.Gen.Logic in
+/-- **code tie (DL_POLY)**: one chunk, or - when the grid is refused - nothing -/
+theorem C17_code_dlpoly (pots : List PotRec) (cutoff : Rat) (n : Int) (d : List (List Tok)) :
+    dlpoly_write_potentials_writes pots cutoff n d =
+      match dlpoly_write_potentials pots cutoff n [] with
+      | .ok s => d ++ [s]
+      | .error _ => d := by
+  simp only [dlpoly_write_potentials_writes, dlpoly_write_potentials]
+  exact dlpoly_writes_loop1_eq _ _ _ _ _ _ _
+
+open Atsim.Gen.Logic in
+theorem gulp_writes_loop1_eq (d : List (List Tok)) (sb : List Tok) (t : TabRec) (xs : List PotRec) :
+    gulp_write_writes_loop1 d sb t xs = d ++ [gulp_write_loop1 [] sb t xs] := by
+  induction xs generalizing sb with
+  | nil => simp [gulp_write_writes_loop1, gulp_write_loop1]
+  | cons x rest ih =>
+    simp only [gulp_write_writes_loop1, gulp_write_loop1]
+    exact ih _
+
+open Atsim.Gen.Logic in
+/-- **code tie (GULP)** -/
+theorem C17_code_gulp (t : TabRec) (d : List (List Tok)) : gulp_write_writes t d = d ++ [gulp_write t []] := by
+  simp only [gulp_write_writes, gulp_write]
+  exact gulp_writes_loop1_eq _ _ _ _
+
+open Atsim.Gen.Logic in
+theorem setfl_writes_loop1_eq (comments : List String) (cutoff dr drho : Rat) (els : List EamRec) (nr nrho : Int) (d : List (List Tok)) (pots : List PotRec)
+    (wo : List Tok) (wdf : EamRec → List EamRec → Int → Rat → List Tok → List Tok) (xs : List EamRec) :
+    setfl_write_writes_loop1 comments cutoff dr drho els nr nrho d pots wo wdf xs =
+      d ++ [setfl_write_loop1 comments cutoff dr drho els nr nrho [] pots wo wdf xs] := by
+  induction xs generalizing wo with
+  | nil => simp [setfl_write_writes_loop1, setfl_write_loop1]
+  | cons x rest ih =>
+    simp only [setfl_write_writes_loop1, setfl_write_loop1]
+    exact ih _
+
+open Atsim.Gen.Logic in
+theorem setfl_write_writes_eq (nrho : Int) (drho : Rat) (nr : Int) (dr : Rat) (cutoff : Rat) (els : List EamRec) (pots : List PotRec) (comments : List String)
+    (d : List (List Tok)) (wdf : EamRec → List EamRec → Int → Rat → List Tok → List Tok) :
+    setfl_write_writes nrho drho nr dr cutoff els pots comments d wdf = d ++ [setfl_write nrho drho nr dr cutoff els pots comments [] wdf] := by
+  simp only [setfl_write_writes, setfl_write]
+  exact setfl_writes_loop1_eq _ _ _ _ _ _ _ _ _ _ _ _
+
+open Atsim.Gen.Logic in
+/-- **code tie (setfl, eam/alloy)** -/
+theorem C17_code_setfl (nrho : Int) (drho : Rat) (nr : Int) (dr : Rat) (els : List EamRec) (pots : List PotRec) (comments : List String) (cutoff : Option Rat)
+    (d : List (List Tok)) :
+    setfl_write_alloy_writes nrho drho nr dr els pots d comments cutoff = d ++ [setfl_write_alloy nrho drho nr dr els pots [] comments cutoff] := by
+  cases cutoff with
+  | none => simp only [setfl_write_alloy_writes, setfl_write_alloy, setfl_write_writes_eq]
+  | some c =>
+    simp only [setfl_write_alloy_writes, setfl_write_alloy, setfl_write_writes_eq]
+    split <;> rfl
+
+open Atsim.Gen.Logic in
+/-- **code tie (setfl, eam/fs)** -/
+theorem C17_code_setfl_fs (nrho : Int) (drho : Rat) (nr : Int) (dr : Rat) (els : List EamRec) (pots : List PotRec) (comments : List String) (cutoff : Option Rat)
+    (d : List (List Tok)) :
+    setfl_write_fs_writes nrho drho nr dr els pots d comments cutoff = d ++ [setfl_write_fs nrho drho nr dr els pots [] comments cutoff] := by
+  cases cutoff with
+  | none => simp only [setfl_write_fs_writes, setfl_write_fs, setfl_write_writes_eq]
+  | some c =>
+    simp only [setfl_write_fs_writes, setfl_write_fs, setfl_write_writes_eq]
+    split <;> rfl
+
+open Atsim.Gen.Logic in
+theorem tabeam_writes_loop1_eq (dr drho : Rat) (els : List EamRec) (nr nrho : Int) (np : Rat) (d : List (List Tok)) (ob : List Tok) (pots : List PotRec)
+    (title : String) (xs : List EamRec) :
+    tabeam_write_writes_loop1 dr drho els nr nrho np d ob pots title xs = d ++ [tabeam_write_loop1 dr drho els nr nrho np [] ob pots title xs] := by
+  induction xs generalizing ob with
+  | nil => simp [tabeam_write_writes_loop1, tabeam_write_loop1]
+  | cons x rest ih =>
+    simp only [tabeam_write_writes_loop1, tabeam_write_loop1]
+    exact ih _
+
+open Atsim.Gen.Logic in
+/-- **code tie (TABEAM)** -/
+theorem C17_code_tabeam (nrho : Int) (drho : Rat) (nr : Int) (dr : Rat) (els : List EamRec) (pots : List PotRec) (title : String) (d : List (List Tok)) :
+    tabeam_write_writes nrho drho nr dr els pots d title = d ++ [tabeam_write nrho drho nr dr els pots [] title] := by
+  simp only [tabeam_write_writes, tabeam_write]
+  exact tabeam_writes_loop1_eq _ _ _ _ _ _ _ _ _ _ _
+
+open Atsim.Gen.Logic in
+theorem tabeam_fs_writes_loop2_eq (dr drho : Rat) (ep : EamRec) (els : List EamRec) (nr nrho : Int) (np : Rat) (d : List (List Tok)) (o : List Tok)
+    (ob : List Tok) (pots : List PotRec) (spA : String) (sl : List String) (title : String) (xs : List String) :
+    tabeam_write_fs_writes_loop2 dr drho ep els nr nrho np d ob pots spA sl title xs =
+      tabeam_write_fs_loop2 dr drho ep els nr nrho np o ob pots spA sl title xs := by
+  induction xs generalizing ob with
+  | nil => simp [tabeam_write_fs_writes_loop2, tabeam_write_fs_loop2]
+  | cons x rest ih =>
+    simp only [tabeam_write_fs_writes_loop2, tabeam_write_fs_loop2]
+    cases densOfOpt ep x with
+    | none => rfl
+    | some f => exact ih _
+
+open Atsim.Gen.Logic in
+theorem tabeam_fs_writes_loop1_eq (dr drho : Rat) (els : List EamRec) (nr nrho : Int) (np : Rat) (d : List (List Tok)) (o : List Tok)
+    (ob : List Tok) (pots : List PotRec) (sl : List String) (title : String) (xs : List EamRec) :
+    tabeam_write_fs_writes_loop1 dr drho els nr nrho np d ob pots sl title xs =
+      tabeam_write_fs_loop1 dr drho els nr nrho np o ob pots sl title xs := by
+  induction xs generalizing ob with
+  | nil => simp [tabeam_write_fs_writes_loop1, tabeam_write_fs_loop1]
+  | cons x rest ih =>
+    simp only [tabeam_write_fs_writes_loop1, tabeam_write_fs_loop1]
+    rw [tabeam_fs_writes_loop2_eq (o := o)]
+    cases tabeam_write_fs_loop2 dr drho x els nr nrho np o ob pots x.species sl title sl with
+    | error e => rfl
+    | ok v => simp only [andThen]; exact ih _
+
+open Atsim.Gen.Logic in
+/-- **code tie (TABEAM, extended EAM)**: one chunk, or - when a density is missing - nothing -/
+theorem C17_code_tabeam_fs (nrho : Int) (drho : Rat) (nr : Int) (dr : Rat) (els : List EamRec) (pots : List PotRec) (title : String) (d : List (List Tok)) :
+    tabeam_write_fs_writes nrho drho nr dr els pots d title =
+      match tabeam_write_fs nrho drho nr dr els pots [] title with
+      | .ok s => d ++ [s]
+      | .error _ => d := by
+  simp only [tabeam_write_fs_writes, tabeam_write_fs]
+  rw [tabeam_fs_writes_loop1_eq (o := [])]
+  cases tabeam_write_fs_loop1 dr drho els nr nrho _ [] _ pots _ title els with
+  | error e => rfl
+  | ok v => simp [andThen]
+
+open Atsim.Gen.Logic CodeTie in
+/-- hence, for instance for LAMMPS tables of any size: whichever evaluation fails, nothing has reached an empty destination -/
+theorem C17_code_lammps_no_partial (pots : List PotRec) (minr maxr : Rat) (n : Int) (k : Nat)
+    (hk : 1 ≤ k) (hkn : k ≤ chunkEvals (lammps_write_potentials pots minr maxr n [])) :
+    writesBeforeFailure (evsOf (lammps_write_potentials_writes pots minr maxr n [])) k = 0 := by
+  rw [C17_code_lammps, List.nil_append, C17_code_trace]
+  exact C17_buffered _ k hk hkn
+
 
 end Atsim.C17
